@@ -298,10 +298,30 @@ class Evaluator:
                 cur.extend(v)          # in place, like Python: aliases of the list see the new elements
                 return
             self.assign(st.target, self.binop(st.op, cur, v, st), env, f)
+        elif isinstance(st, ast.Delete):
+            for t in st.targets:
+                if isinstance(t, ast.Subscript):
+                    base = self.expr(t.value, env, f, depth)
+                    idx = self.expr(t.slice, env, f, depth)
+                    if type(base) in (dict, list) and not isinstance(idx, (Opaque, Sym)):
+                        try:
+                            del base[idx]
+                        except KeyError:
+                            raise Raised("KeyError")
+                        except (IndexError, TypeError) as ex_:
+                            raise Raised(type(ex_).__name__)
+                        if "del" in self.watch:
+                            self.effects.append(("del", freeze(idx)))
+                        continue
+                raise AnalysisError("statement Delete not supported by the table extractor (%s)" % f.loc(st))
         elif isinstance(st, ast.For):
             it = self.expr(st.iter, env, f, depth)
             if isinstance(it, dict):
                 it = tuple(it)
+            if isinstance(it, (set, frozenset)) and all(isinstance(x, (str, int, float, bool)) for x in it):
+                # a set of plain values is walked in one fixed order (sorted): whether the order can matter at all is the
+                # business of R-DET, not of a decision table
+                it = tuple(sorted(it, key=lambda x: (type(x).__name__, x)))
             if not isinstance(it, (tuple, list)):
                 raise AnalysisError("loop over a non-concrete sequence in %s" % f.loc(st))
             broke = False
@@ -1133,6 +1153,16 @@ class Evaluator:
                 return out_
             if type(rv_) is dict and fn.attr in ("update", "copy", "clear", "popitem") and not kws and all(isinstance(a, dict) for a in args):
                 return getattr(rv_, fn.attr)(*args)
+            if type(rv_) is dict and fn.attr in ("pop", "get", "setdefault") and 1 <= len(args) <= 2 and not kws \
+                    and not isinstance(args[0], (Opaque, Sym)):
+                try:
+                    return getattr(rv_, fn.attr)(*args)
+                except KeyError:
+                    raise Raised("KeyError")
+                except TypeError:
+                    raise Raised("TypeError")
+            if type(rv_) is dict and fn.attr in ("keys", "values", "items") and not args and not kws:
+                return list(getattr(rv_, fn.attr)())
             if type(rv_) is list and fn.attr in ("copy", "reverse", "count", "index") and not kws:
                 try:
                     return getattr(rv_, fn.attr)(*args)
